@@ -46,6 +46,7 @@ impl Prop for C12Prop {
             keyings: 2,
             boundary_per_mille: 25,
             huge_one_in: 2000,
+            hub_one_in: 0,
         }
         .gen("C12", seed, idx);
         // the node set the history produces (the model is exact for these permissive specs)
